@@ -178,13 +178,32 @@ def rule_R4b(ctx, rep, config="c-lib"):
 
     def cn(x):
         return canon.get(x, x)
-    # byte symbols: value of `load i8 P' (P = a load of curr_ch) is named by P's SSA id
+    # local cursors: pointer values made from the cursor by +/- 1 steps and merges (`const char *next = curr_ch; ... next++; ... curr_ch = next;')
+    CZ = set(l.id for l in cur_loads)
+    grow = True
+    while grow:
+        grow = False
+        for i in f.all_insts():
+            if i.id in CZ:
+                continue
+            if i.op == "getelementptr" and len(i.d["path"]) == 1 and "ptr" in i.d["path"][0] and const_int(i.d["path"][0]["ptr"]) in (1, -1) \
+                    and strip_casts(f, i.d["base"]).get("v") in CZ:
+                CZ.add(i.id)
+                grow = True
+            elif i.op == "phi" and i.ty == "i8*" and all(_cursorish(f, v, i.id, CZ) for (v, _) in i.d["incoming"]) \
+                    and any(strip_casts(f, v).get("v") in CZ for (v, _) in i.d["incoming"]):
+                CZ.add(i.id)
+                grow = True
+    LOCAL_PHIS = set(x for x in CZ if f.insts[x].op == "phi")
+    # byte symbols: value of `load i8 P' (P = a load of curr_ch, or a local cursor) is named by P's SSA id
     byte_of = {}
     for i in f.all_insts():
         if i.op == "load" and i.ty == "i8":
             pi = f.inst(strip_casts(f, i.ops[0]))
             if is_cursor_load(pi):
                 byte_of[i.id] = cn(pi.id)
+            elif pi is not None and pi.id in CZ:
+                byte_of[i.id] = pi.id
     changed = True
     while changed:
         changed = False
@@ -286,6 +305,33 @@ def rule_R4b(ctx, rep, config="c-lib"):
                     continue
             cur = s
             for i in b.insts:
+                if i.op == "phi" and i.id in LOCAL_PHIS:
+                    # the position of a local cursor after a merge: every incoming position, made anonymous with what is known on its edge
+                    acc = None
+                    raw = []
+                    for (iv, pb) in i.d["incoming"]:
+                        e = EDGE.get((pb, b.name))
+                        sv = snap.get(strip_casts(f, iv).get("v"))
+                        if e is None or sv is None:
+                            continue
+                        raw.append((sv.ahead, sv.pend))
+                        st = LexState(sv.ahead, sv.pend, sv.nz | e.nz, sv.z | e.z)
+                        st = LexState(st.eff(), None) if st.safe() else LexState(max(st.ahead, 1), "?")
+                        acc = join(acc, st)
+                    if raw and len(set(raw)) == 1 and raw[0][1] not in (i.id, "?"):
+                        # the same position on every way in (one step behind the same byte): what is known about that byte stays with the path
+                        snap[i.id] = LexState(raw[0][0], raw[0][1])
+                    elif acc is not None:
+                        snap[i.id] = acc
+                    # the merged pointer denotes a new position: what was known about the byte read through its previous value is forgotten
+                    cur = LexState(cur.ahead, None if cur.pend == i.id else cur.pend, cur.nz - {i.id}, cur.z - {i.id}) if cur.pend != i.id or cur.safe() \
+                        else LexState(max(cur.ahead, 1), "?", cur.nz - {i.id}, cur.z - {i.id})
+                    continue
+                if i.op == "getelementptr" and i.id in CZ:
+                    src = f.inst(strip_casts(f, i.d["base"]))
+                    if src is not None and src.id in snap:
+                        snap[i.id] = _step(snap[src.id], cur, const_int(i.d["path"][0]["ptr"]), cn(src.id), src.id in canon or src.id in LOCAL_PHIS)
+                    continue
                 if i.op == "load":
                     if is_cursor_load(i) and i.id in canon:
                         snap[i.id] = cur      # same position as an earlier load: no new byte
@@ -314,6 +360,11 @@ def rule_R4b(ctx, rep, config="c-lib"):
                         if vi is not None and vi.op == "getelementptr" and len(vi.d["path"]) == 1 and "ptr" in vi.d["path"][0]:
                             delta = const_int(vi.d["path"][0]["ptr"])
                             src = f.inst(strip_casts(f, vi.d["base"]))
+                        if vi is not None and vi.id in LOCAL_PHIS and vi.id in snap:
+                            # curr_ch = <local cursor>: the cursor takes the local cursor's position
+                            st = snap[vi.id]
+                            cur = LexState(st.ahead, st.pend, st.nz | cur.nz, st.z | cur.z)
+                            continue
                         if delta not in (1, -1) or src is None or src.id not in snap:
                             raise AnalysisBroken("curr_ch is assigned a value that is not curr_ch +/- 1 at %s" % i.where())
                         st = snap[src.id]
@@ -322,7 +373,7 @@ def rule_R4b(ctx, rep, config="c-lib"):
                         if delta == 1:
                             if a < 0:
                                 cur = LexState(a + 1, None, st.nz, st.z)
-                            elif a == 0 and src.id in canon:
+                            elif a == 0 and (src.id in canon or src.id in LOCAL_PHIS):
                                 cur = LexState(1, cn(src.id), st.nz, st.z)      # what is known about the byte peeked at stays
                             elif a == 0:
                                 cur = LexState(1, src.id, st.nz - {src.id}, st.z - {src.id})
@@ -379,7 +430,8 @@ def rule_R4b(ctx, rep, config="c-lib"):
                 if EDGE.get((b.name, sn)) != st:
                     EDGE[(b.name, sn)] = st
                     work = True
-    allreads = [i for i in f.all_insts() if i.op == "load" and i.ty == "i8" and is_cursor_load(f.inst(strip_casts(f, i.ops[0])))]
+    allreads = [i for i in f.all_insts() if i.op == "load" and i.ty == "i8" and (is_cursor_load(f.inst(strip_casts(f, i.ops[0])))
+                                                                                 or strip_casts(f, i.ops[0]).get("v") in CZ)]
     k = 0
     for i in allreads:
         k += 1
@@ -423,3 +475,33 @@ def _assume(cur, sym, is_zero, is_nonzero):
     if is_zero:
         return LexState(cur.ahead, cur.pend, cur.nz, cur.z | {sym})
     return cur
+
+
+def _step(st0, cur, delta, sym, keep_facts):
+    """position state after moving a cursor by delta (+1 / -1) from the position st0 (facts of the current path merged in); sym names the byte at the old position"""
+    st = LexState(st0.ahead, st0.pend, st0.nz | cur.nz, st0.z | cur.z)
+    a = st.eff()
+    if delta == 1:
+        if a < 0:
+            return LexState(a + 1, None, st.nz, st.z)
+        if a == 0 and keep_facts:
+            return LexState(1, sym, st.nz, st.z)
+        if a == 0:
+            return LexState(1, sym, st.nz - {sym}, st.z - {sym})
+        return LexState(2, "?", st.nz, st.z)
+    if a >= 2:
+        return LexState(a - 1, "?", st.nz, st.z)
+    if a == 1:
+        return LexState(0, None, st.nz, st.z)
+    return LexState(a - 1, None, st.nz, st.z)
+
+
+def _cursorish(f, v, self_id, CZ):
+    o = strip_casts(f, v).get("v")
+    if o in CZ or o == self_id:
+        return True
+    x = f.insts.get(o)
+    if x is not None and x.op == "getelementptr" and len(x.d["path"]) == 1 and "ptr" in x.d["path"][0] and const_int(x.d["path"][0]["ptr"]) in (1, -1):
+        b = strip_casts(f, x.d["base"]).get("v")
+        return b == self_id or b in CZ
+    return False
